@@ -49,6 +49,8 @@ def ws2dwcv(y, nodata, llas, robust, out, lopt):
     d_eigs[0] = 1e-15
 
     if n > 4:
+        # missing cells have zero weight: keep their (possibly non-finite) values out of the arithmetic
+        yv = np.where(w == 0, 0.0, y)
         z = np.zeros(m)
         r_weights = np.ones(m)
 
@@ -70,11 +72,11 @@ def ws2dwcv(y, nodata, llas, robust, out, lopt):
 
             w_temp = w * r_weights
             for s in lambda_range:
-                z = ws2d(y, s, w_temp)
+                z = ws2d(yv, s, w_temp)
 
                 gamma = w_temp / (w_temp + s * ((-1 * d_eigs) ** 2))
                 tr_H = gamma.sum()
-                wsse = (((w_temp**0.5) * (y - z)) ** 2).sum()
+                wsse = (((w_temp**0.5) * (yv - z)) ** 2).sum()
                 denominator = w_temp.sum() * (1 - (tr_H / (w_temp.sum()))) ** 2
                 gcv_score = wsse / denominator
 
@@ -89,17 +91,18 @@ def ws2dwcv(y, nodata, llas, robust, out, lopt):
 
             if robust:
                 gamma = w_temp / (w_temp + s * ((-1 * d_eigs) ** 2))
-                r_arr = y - y_temp
+                r_arr = yv - y_temp
 
-                mad = np.median(
-                    np.abs(r_arr[r_weights != 0] - np.median(r_arr[r_weights != 0]))
-                )
-                u_arr = r_arr / (1.4826 * mad * np.sqrt(1 - gamma.sum() / n))
+                # robust scale from the residuals of the cells that still carry weight
+                valid = w_temp != 0
+                mad = np.median(np.abs(r_arr[valid] - np.median(r_arr[valid])))
+                if mad > 0:
+                    u_arr = r_arr / (1.4826 * mad * np.sqrt(1 - gamma.sum() / n))
 
-                r_weights = (1 - (u_arr / 4.685) ** 2) ** 2
-                r_weights[(np.abs(u_arr / 4.685) > 1)] = 0
+                    r_weights = (1 - (u_arr / 4.685) ** 2) ** 2
+                    r_weights[(np.abs(u_arr / 4.685) > 1)] = 0
 
-                r_weights[r_arr > 0] = 1
+                    r_weights[r_arr > 0] = 1
 
             robust_weights = w * r_weights
 
@@ -113,7 +116,7 @@ def ws2dwcv(y, nodata, llas, robust, out, lopt):
             lopt[0] = robust_gcv[0, 1]
 
         z[:] = 0.0
-        z = ws2d(y, lopt[0], robust_weights)
+        z = ws2d(yv, lopt[0], robust_weights)
         np.round(z, 0, out)
 
     else:
